@@ -104,6 +104,10 @@ def delivery_run(
         while run.steps < max_steps:
             for inj in by_step.pop(run.steps, []):
                 _inject(w, inj, rng, run)
+            if w.withheld and noack_p:
+                for rid in list(w.withheld):
+                    if rng.random() < 0.35:
+                        w.lapse(rid)  # the dead worker's lock runs out while the message waits
             rows = w.rows()
             if not rows:
                 if by_step and min(by_step) > run.steps:
